@@ -28,16 +28,23 @@ def frame_bytes(k, t):
         return fr(t)
     if k == "okws":                       # insignificant whitespace in front of the document
         return b"\n " + fr(t)
+    if k == "okpretty":                   # tabs and line breaks between the tokens (pretty-printed by the peer)
+        return PRETTY + t.encode() + SUFFIX
     if k == "badutf8":                    # not valid UTF-8: must be a decode error
         return PREFIX + t.encode() + b"\xff" + SUFFIX
     return OTHER[k]
 
 
+PRETTY = b'{\n\t"parameters":\t{\n\t\t"note":\t"'
+
+
 def note_off(k):
+    if k == "okpretty":
+        return len(PRETTY)
     return len(PREFIX) + (2 if k == "okws" else 0)
 
 
-EXPECT = {"ok": "ok", "okws": "ok", "merr": "merr", "bad": "err:json", "badutf8": "err:json"}
+EXPECT = {"ok": "ok", "okws": "ok", "okpretty": "ok", "merr": "merr", "bad": "err:json", "badutf8": "err:json"}
 
 
 OTHER = {
@@ -120,7 +127,9 @@ def gen_cases(ck, limit, step):
     # (c2) replies with insignificant leading whitespace; replies that are not valid UTF-8
     for i in range(60 if quick else 600):
         n = rng.randrange(2, 6)
-        frames = [(rng.choice(["ok", "okws", "okws"]), note(rng, rng.randrange(1, 40))) for _ in range(n)]
+        frames = [(rng.choice(["ok", "okws", "okws", "okpretty", "okpretty"]), note(rng, rng.randrange(1, 40))) for _ in range(n)]
+        if rng.random() < 0.5:
+            frames[0] = ("ok", note(rng, rng.randrange(20, 60)))     # a long first note under the later frames' blanks
         if rng.random() < 0.4:
             j = rng.randrange(0, n)
             frames[j] = ("badutf8", frames[j][1])
@@ -185,7 +194,7 @@ def settle(ck, c, r, leg=""):
         a = r.get(key)
         if a and last_ok:
             ref = last_ok[-1]["views"]
-            for vk in ("views", "views_again"):
+            for vk in ("views", "views_again", "views_after_drop"):
                 if vk in a and a[vk] != ref and a["data_reads"] == last_ok[-1]["data_reads"]:
                     ck.violation("%sheld reply strings changed when %s (%s), although nothing was read from the "
                                  "transport: %s -> %s" % (leg, what, vk, show(ref), show(a[vk])),
@@ -222,8 +231,8 @@ def render(c, r, step, limit):
     for s in r["steps"]:
         flags.append("true" if s["data_reads"] > prev else "false")
         prev = s["data_reads"]
-    mask = ["true" if (k in ("ok", "okws") and i >= c["pre"]) else "false" for i, (k, t) in enumerate(c["frames"])]
-    notes = [coq_bytes(t.encode()) if k in ("ok", "okws") else "[]" for k, t in c["frames"]]
+    mask = ["true" if (k in ("ok", "okws", "okpretty") and i >= c["pre"]) else "false" for i, (k, t) in enumerate(c["frames"])]
+    notes = [coq_bytes(t.encode()) if k in ("ok", "okws", "okpretty") else "[]" for k, t in c["frames"]]
     offs = ["%d%%nat" % note_off(k) for k, t in c["frames"]]
     return ("{| bc_step := %d; bc_limit := %d; bc_events := %s; bc_n := %d%%nat; bc_offs := %s; "
             "bc_suf := %d%%nat; bc_notes := %s; bc_mask := %s; bc_views := %s; bc_reads := %s |}") % (
